@@ -53,7 +53,7 @@ def run(run, binfo):
     for r in range(len(LAYERS) + 1):
         subsets += [set(c) for c in itertools.combinations(LAYERS, r)]
     if tier == 'quick':
-        picks = subsets[::2]
+        picks = subsets
     else:
         picks = subsets
     cases = []
@@ -73,6 +73,17 @@ def run(run, binfo):
         e.load_rules()
         obs = observe(e)
         mod = model_history([1, enc_defaults(defaults), 1], [[fs.wire(), 0]])[0]
+        spec = run_batch([[11, [1, enc_defaults(defaults), 1], fs.wire(), [S(n) for n in NAMES]]])[0]
+        from common import unS
+        for n, sp in zip(NAMES, spec):
+            want_s = unS(sp[0]) if sp else None
+            got_s = dict(obs['rules']).get(n)
+            if want_s != got_s:
+                run.violation('layering-spec', 'name %s: effective %r, extracted spec_rule says %r' % (n, got_s, want_s),
+                              {'kind': 'failing-input', 'suite': 'spec-c09',
+                               'input': {'assign': {k: sorted(v) for k, v in assign.items()},
+                                         'main_present': main_present, 'fmts': fmts},
+                               'expected': want_s, 'observed': got_s})
         run.evaluations += 1
         if obs != mod:
             bad_corr.append((repr(assign), mod, obs))
@@ -141,6 +152,7 @@ def pick_table(run):
     from oslo_config import cfg
     from oslo_policy import policy, opts
     rows = 0
+    model_rows = []
     root = fresh_root('c09pick')
     for how, value in [('opt_default', 'policy.yaml'), ('set_default', 'policy.yaml'), ('set_default', 'other.yaml'),
                        ('config_file', 'policy.yaml'), ('config_file', 'other.yaml'),
@@ -174,6 +186,11 @@ def pick_table(run):
                     loc = {'opt_default': 'opt_default', 'set_default': 'set_default',
                            'config_file': 'user', 'override': 'set_override'}[how]
                     want = pick_spec(value, loc, fallback, have_yaml, have_json, have_other, explicit)
+                    if not explicit:
+                        found_opt = have_yaml if value == 'policy.yaml' else have_other
+                        lcode = {'opt_default': 0, 'set_default': 1, 'user': 2, 'set_override': 3}[loc]
+                        model_rows.append(([12, value == 'policy.yaml', True, fallback, found_opt, lcode, have_json],
+                                           got, value))
                     rows += 1
                     run.evaluations += 1
                     if got != want:
@@ -185,6 +202,13 @@ def pick_table(run):
                                                  'fallback': fallback, 'explicit': explicit},
                                        'expected': want, 'observed': got})
     shutil.rmtree(root, ignore_errors=True)
+    answers = run_batch([r[0] for r in model_rows])
+    for (req, got, value), ans in zip(model_rows, answers):
+        mpick = 'policy.json' if ans[0] else value
+        if mpick != got:
+            run.violation('correspondence:pick', 'model picks %r, implementation %r for %r' % (mpick, got, req),
+                          {'kind': 'broken-obligation', 'obligation': 'correspondence (pick_default_policy_file)',
+                           'input': req, 'model': mpick, 'observed': got})
     return rows
 
 
